@@ -1,6 +1,6 @@
 CONSTANTS
-  Users = {"u1", "u2"}
-  Roles = {"r1"}
+  Users = {"u1", "u2", "u3", "u1@%"}
+  Roles = {"r1", "r2"}
   Dbs = {"d1", "d2"}
   Tbls = {"t1", "t2"}
   Privs = {"SELECT", "INSERT", "UPDATE", "DELETE", "CREATE", "DROP", "ALTER", "INDEX", "EXECUTE", "CREATE USER", "GRANT OPTION", "SUPER"}
